@@ -233,7 +233,7 @@ static std::function<void(const struct RunResult &)> g_abort_printer;   // set b
 static RunResult collect(int rc, const std::string &err);
 
 static RunResult run_once(int nw, int ktotal, int first_frame, long budget, bool ordered,
-                          const std::vector<int> &script, int fallback, unsigned long seed) {
+                          const std::vector<int> &script, int fallback, unsigned long seed, long begin = 0) {
   G = Shared();
   G.ktotal = ktotal;
   App app;
@@ -257,6 +257,10 @@ static RunResult run_once(int nw, int ktotal, int first_frame, long budget, bool
   };
   std::vector<std::string> args = {"drv", "--top", "x.vtop", "--trj", "x.vtrj", "--nt", std::to_string(nw),
                                    "--first-frame", std::to_string(first_frame)};
+  if (begin > 0) {
+    args.push_back("--begin");
+    args.push_back(std::to_string(begin));
+  }
   if (budget >= 0) {
     args.push_back("--nframes");
     args.push_back(std::to_string(budget));
@@ -355,11 +359,12 @@ int main(int argc, char **argv) {
         int ktotal, ff, nw, ordered;
         long budget;
         unsigned long seed;
-        in >> ktotal >> ff >> budget >> nw >> ordered >> seed;
+        long begin = 0;
+        in >> ktotal >> ff >> budget >> nw >> ordered >> seed >> begin;
         g_abort_printer = [](const RunResult &r) { print_run(r, std::cout, false); };
         std::cout << "{\"e\":\"seek\",\"total\":" << ktotal << ",\"ff\":" << ff << ",\"b\":" << budget << ",\"nw\":" << nw
                   << ",\"ord\":" << (ordered ? "true" : "false") << "}\n";
-        RunResult r = run_once(nw, ktotal, ff, budget, ordered != 0, {}, 1, seed);
+        RunResult r = run_once(nw, ktotal, ff, budget, ordered != 0, {}, 1, seed, begin);
         print_run(r, std::cout, false);
       }
     }
